@@ -234,7 +234,12 @@ def canon(e, env):
         if callee_is(e, 'IsNone::none'):
             return 'NULL'
         name = canon(c, env)
-        return '%s(%s)' % (name, ', '.join(canon(x, env) for x in e['ch'][1:]))
+        a_ = [canon(x, env) for x in e['ch'][1:]]
+        if e.get('callee_res') == 'AssocFn' and a_ and a_[0] in ('self', 'self.view', 'self.0') and \
+                '::' in name and name.split('::')[-1][:1].islower():
+            # fully qualified call of a method on self: `Trait::m(self, x)` is `self.m(x)`
+            return '%s.%s(%s)' % (a_[0], name.split('::')[-1], ', '.join(a_[1:]))
+        return '%s(%s)' % (name, ', '.join(a_))
     if k == 'Binary':
         op = {'Lt': '<', 'Le': '<=', 'Gt': '>', 'Ge': '>=', 'Eq': '==', 'Ne': '!=', 'Add': '+',
               'Sub': '-', 'Mul': '*', 'Div': '/', 'Rem': '%', 'And': '&&', 'Or': '||',
@@ -344,7 +349,7 @@ def canon(e, env):
                         parts.append('%s := %s' % (nm, c))
                     elif p_.get('k') == 'Tuple' and all(q.get('k') in ('Binding', 'Wild') for q in p_['ch']):
                         if _inlineable({'mut': any(q.get('mut') for q in p_['ch'])}, c, en) and \
-                                re.fullmatch(r'[\w.]+', c):
+                                re.fullmatch(r'[\w.]+(\(\))?', c):
                             nm = c
                         else:
                             nm = _fresh(en, 'v')
@@ -589,7 +594,7 @@ def _paths(e, env=None, conds=frozenset(), effects=()):
                         # the value is a plain immutable one)
                         c = canon(init, en)
                         if _inlineable({'mut': any(q.get('mut') for q in s['pat']['ch'])}, c, en) and \
-                                re.fullmatch(r'[\w.]+', c):
+                                re.fullmatch(r'[\w.]+(\(\))?', c):
                             nm = c
                         else:
                             nm = _fresh(en, 'v')
@@ -759,7 +764,8 @@ def env_at(root, node, env=None):
                 bind_let(p_, v_)
         elif pat.get('k') == 'Tuple' and all(q.get('k') in ('Binding', 'Wild') for q in pat['ch']):
             c = canon(init, env)
-            if _inlineable({'mut': any(q.get('mut') for q in pat['ch'])}, c, env) and re.fullmatch(r'[\w.]+', c):
+            if _inlineable({'mut': any(q.get('mut') for q in pat['ch'])}, c, env) and \
+                    re.fullmatch(r'[\w.]+(\(\))?', c):
                 nm = c
             else:
                 nm = _fresh(env, 'v')
@@ -1250,11 +1256,13 @@ def _inline_defs(leaf, ef, cs=(), mutkept=()):
         changed = False
         for i, e in enumerate(ef):
             m = re.match(r'(v\d+) := (.*)$', e)
-            if not m or _EFFECTFUL.search(m.group(2)) or '|' in m.group(2):
+            if not m or _EFFECTFUL.search(m.group(2)):
                 continue
             v, x = m.group(1), m.group(2)
             later = ef[i + 1:]
             rxv = re.compile(r'\b%s\b' % v)
+            if '|' in x and len(rxv.findall(' ; '.join(later + [leaf]))) != 1:
+                continue           # a closure-valued definition is substituted only into a single use
             text = ' ; '.join(later + [leaf])
             targets = set(re.findall(r'([\w.\[\]]+) (?:=|:=|\w+Assign) ', text))
             if v in targets or v in mutkept or any(rxv.search(c_) for c_ in cs):
